@@ -25,6 +25,6 @@ Extraction "model.ml"
   spec_enc refusable emit_len
   schema_of insert lookup has_schema decl_of sdec erase prim_decl prim_schema_width prim_width all_prims N.of_nat
   ty_container container_to_val val_to_container try_to_vec_with_schema try_from_slice_with_schema
-  dec_cost dec_trace fam wire_pos
+  dec_cost dec_trace fam wire_pos cautious
   bounds_of documented_bounds render render_pred uses occurs type_params
   inner_struct schema_declaration_params schema_declaration.
